@@ -186,6 +186,15 @@ KIND_PAIRS = [("SetTextVector", "SetNumberVector"), ("SetSwitchVector", "SetLigh
 KIND_PAIRS = [p for p in KIND_PAIRS if p[0] not in ("NewSwitchVector",)]  # part signatures differ
 
 
+def _nstr(kind, n):
+    """Symbolic strings a perturb condition may draw: every free field of the
+    message and of n + 1 children (child-append draws one more), plus the
+    replacement value."""
+    fields, child = MSG_SPECS[kind]
+    free = lambda fs: len([1 for name, req, k in fs if k in ("s", "t")])
+    return free(fields) + (free(PART_SPECS[child]) * (n + 1) if child else 0) + 2
+
+
 def conditions(tier):
     out = []
     thorough = tier == "thorough"
@@ -202,7 +211,7 @@ def conditions(tier):
     for k in VECTOR_KINDS:
         counts = (0, 1, 2, 3, 4) if thorough else (0, 1) + deep_quick.get(k, ())
         for n in counts:
-            out.append(Condition(f"perturb/{k}/{n}", make_condition(perturb(k, n, maxlen), 8 + 5 * (n + 1), 2, 0),
+            out.append(Condition(f"perturb/{k}/{n}", make_condition(perturb(k, n, maxlen), _nstr(k, n), 2, 0),
                                  about=f"{k} with {n} children: attribute changed/dropped/added, child field changed, "
                                        f"child dropped/duplicated/swapped/appended at every index, and the unperturbed copy",
                                  encodes=ENC, bounds=f"{n} children; strings len<={maxlen}", timeout=600))
